@@ -491,19 +491,33 @@ func c13Flags(c *Ctx) {
 			break
 		}
 		p.Instrs(func(in ssa.Instruction) {
-			call, ok := in.(*ssa.Call)
-			if !ok || done {
+			if done {
 				return
 			}
-			b, ok := call.Call.Value.(*ssa.Builtin)
-			if !ok || b.Name() != "append" {
+			// the IP handed to the result: appended, or stored into an element of a pre-sized slice
+			var ipExpr *an.Expr
+			var at ssa.Instruction = in
+			switch x := in.(type) {
+			case *ssa.Call:
+				b, ok := x.Call.Value.(*ssa.Builtin)
+				if !ok || b.Name() != "append" {
+					return
+				}
+				e := p.Of(x)
+				if e.Op != an.OpAppend || len(e.Args) != 2 || e.Args[1].Op != an.OpStruct || len(e.Args[1].Args) != 1 {
+					return
+				}
+				ipExpr = e.Args[1].Args[0]
+			case *ssa.Store:
+				if _, isElem := x.Addr.(*ssa.IndexAddr); !isElem || !strings.HasSuffix(typeStr(x.Val.Type()), "system.IP") {
+					return
+				}
+				ipExpr = p.Of(x.Val)
+			default:
 				return
 			}
-			e := p.Of(call)
-			if e.Op != an.OpAppend || len(e.Args) != 2 || e.Args[1].Op != an.OpStruct || len(e.Args[1].Args) != 1 {
-				return
-			}
-			flds := raHeader(e.Args[1].Args[0])
+			call := at
+			flds := raHeader(ipExpr)
 			if flds == nil || flds["Address"] == nil {
 				return
 			}
